@@ -20,6 +20,7 @@ import ast
 from ..astutil import (text, access_path, calls_in, func_params, stmts_of, is_const, const_value, method_call, range_bounds, single_defs, canon)
 from ..loader import where, AnalysisError
 from ..paths import Enumerator
+from ..terms import Terms, PathEnv
 from .. import poly
 
 
@@ -66,51 +67,74 @@ def r2_grid(ctx, repo):
     fn = cls.methods.get("generate")
     C = "UniformGenerator.generate"
     selfn = func_params(fn)[0]
-    defs = single_defs(fn)
-    ploops = [s for s in fn.body if isinstance(s, ast.For) and access_path(s.iter) == selfn + ".parameters"]
-    if len(ploops) != 1:
+    T = Terms(fn)
+    ploops = [s for s in fn.body if isinstance(s, ast.For) and access_path(T.expand(s.iter, at=s)) == selfn + ".parameters"]
+    if len(ploops) != 1 or not isinstance(ploops[0].target, ast.Name):
         ctx.inconclusive("R2", C, where(cls.module, fn), "parameter loop not found")
         return
     pl = ploops[0]
     pv = pl.target.id
-    inner = [s for s in pl.body if isinstance(s, ast.For) and range_bounds(s.iter)]
-    ok_levels = False
-    detail = "level loop not found"
-    cols = None
-    if len(inner) == 1:
-        il = inner[0]
-        rb = range_bounds(il.iter)
-        i = il.target.id
-        app = [c for c in calls_in(il) if method_call(c) and method_call(c)[1] == "append"]
-        if app and (rb[0] is None or text(rb[0]) == "0") and text(rb[1]) == selfn + ".number" and rb[2] is None:
-            ldefs = dict(defs)
-            ldefs.update(single_defs(ast.FunctionDef(name="x", args=fn.args, body=pl.body, decorator_list=[], returns=None, type_comment=None, lineno=0, col_offset=0)))
-            e = canon(app[0].args[0], ldefs)
+    # the list of columns: the receiver of the append that is executed once per parameter
+    col_apps = [s for s in pl.body if isinstance(s, ast.Expr) and method_call(s.value) and method_call(s.value)[1] == "append"
+                and isinstance(method_call(s.value)[0], ast.Name) and len(s.value.args) == 1]
+    cols = access_path(method_call(col_apps[0].value)[0]) if len(col_apps) == 1 else None
+    # the k levels of one column: (element expression, index name, range) however the column is filled
+    level = None
+    fresh = False
+    if cols is not None:
+        ca = col_apps[0]
+        arg = ca.value.args[0]
+        after = T.expand_after(arg, ca) if isinstance(arg, ast.Name) else arg
+        argx = T.expand(arg, at=ca)
+        inner = [s for s in pl.body if isinstance(s, ast.For)]
+        if isinstance(argx, ast.ListComp) and len(argx.generators) == 1 and not argx.generators[0].ifs and isinstance(argx.generators[0].target, ast.Name):
+            # column built first (loop or comprehension), then appended
+            fresh = True
+            level = (argx.elt, argx.generators[0].target.id, range_bounds(argx.generators[0].iter), ca)
+        elif len(inner) == 1 and isinstance(inner[0].target, ast.Name):
+            il = inner[0]
+            apps = [(st_, c) for st_ in stmts_of(il) if isinstance(st_, ast.Expr) for c in [st_.value] if method_call(c) and method_call(c)[1] == "append" and len(c.args) == 1]
+            empty = isinstance(argx, ast.List) and not argx.elts
+            if len(apps) == 1 and empty and pl.body.index(ca) < pl.body.index(il):
+                recv = method_call(apps[0][1])[0]
+                same = (isinstance(arg, ast.Name) and access_path(recv) == arg.id) or \
+                       (isinstance(arg, ast.List) and isinstance(recv, ast.Subscript) and access_path(recv.value) == cols and text(recv.slice) == "-1")
+                if same and not any(isinstance(x, (ast.If, ast.Break, ast.Continue)) for x in stmts_of(il)):
+                    fresh = True
+                    level = (T.expand(apps[0][1].args[0], at=apps[0][0]), il.target.id, range_bounds(T.expand(il.iter, at=il)), apps[0][0])
+    ok_levels = None
+    detail = "level construction not recognised"
+    if level is not None:
+        e, i, rb, at_ = level
+        if rb and (rb[0] is None or text(rb[0]) == "0") and text(rb[1]) == selfn + ".number" and rb[2] is None:
             want = poly.parse("{p}['bounds'][0] + {i} * ({p}['bounds'][1] - {p}['bounds'][0]) / ({s}.number - 1)".format(p=pv, i=i, s=selfn))
             eq = poly.equal(e, want)
-            ok_levels = bool(eq)
-            recv = method_call(app[0])[0]
-            cols = access_path(recv.value) if isinstance(recv, ast.Subscript) else access_path(recv)
+            ok_levels = None if eq is None else bool(eq)
             detail = "k levels lo + i*(hi-lo)/(k-1), i in [0,k)" if ok_levels else "level %s is not lo + i*(hi-lo)/(k-1)" % text(e)
-        else:
-            detail = "levels generated over %s, not range(k)" % text(il.iter)
-    ctx.check3(True if ok_levels else (None if detail == "level loop not found" else False), "R2", C, where(cls.module, pl), detail, detail, detail, key="levels")
-    # a fresh column list per parameter
-    fresh = any(isinstance(s, ast.Expr) and method_call(s.value) and method_call(s.value)[1] == "append" and isinstance(s.value.args[0], ast.List) and not s.value.args[0].elts
-                for s in pl.body)
-    prod = [c for c in calls_in(fn) if access_path(c.func) in ("itertools.product", "product")]
-    okp = False
-    if prod and cols:
-        a = prod[0].args
-        okp = len(a) == 1 and isinstance(a[0], ast.Starred) and access_path(a[0].value) == cols and not prod[0].keywords
-    plp = [s for s in fn.body if isinstance(s, ast.For) and prod and prod[0] in list(ast.walk(s.iter))]
-    one_each = False
-    if plp:
-        apps = [c for c in calls_in(plp[0]) if method_call(c) and method_call(c)[1] == "append"]
-        one_each = len(apps) == 1 and text(apps[0].args[0]) in ("list(%s)" % access_path(plp[0].target), access_path(plp[0].target) or "") and \
-            not any(isinstance(s, (ast.If, ast.Break, ast.Continue)) for s in stmts_of(plp[0]))
-    ctx.check(fresh and okp and one_each, "R2", C, where(cls.module, fn), "one level column per parameter, full Cartesian product, every combination appended once" if (fresh and okp and one_each) else
-              "the result is not the full Cartesian product of the per-parameter level columns (fresh column=%s, product(*columns)=%s, one append per combination=%s)" % (fresh, okp, one_each), key="product")
+        elif rb:
+            ok_levels = False
+            detail = "levels generated over range(%s), not range(k)" % ", ".join(text(x) for x in rb if x is not None)
+    ctx.check3(ok_levels, "R2", C, where(cls.module, pl), detail, detail, detail, key="levels")
+    # full Cartesian product of the columns, every combination once
+    rts = [t for _, t in T.returns if t is not None]
+    state = None
+    why = "returned value not recognised as the list of all combinations"
+    if len(rts) == 1 and cols is not None:
+        rt = rts[0]
+        if isinstance(rt, ast.ListComp) and len(rt.generators) == 1 and isinstance(rt.generators[0].target, ast.Name):
+            g = rt.generators[0]
+            v = g.target.id
+            it = g.iter
+            is_prod = isinstance(it, ast.Call) and access_path(it.func) in ("itertools.product", "product")
+            if isinstance(it, ast.Call) and access_path(it.func) in ("zip", "itertools.zip_longest", "zip_longest"):
+                state = False
+                why = "the columns are combined with %s: only the diagonal of the grid (one design per level index) is produced, not all combinations" % text(it)
+            if is_prod:
+                okp = len(it.args) == 1 and isinstance(it.args[0], ast.Starred) and access_path(it.args[0].value) == cols and not it.keywords
+                one_each = not g.ifs and text(rt.elt) in ("list(%s)" % v, v, "[*%s]" % v)
+                state = bool(fresh and okp and one_each)
+                why = "the result is not the full Cartesian product of the per-parameter level columns (fresh column per parameter=%s, product(*columns)=%s, every combination once=%s)" % (fresh, okp, one_each)
+    ctx.check3(state, "R2", C, where(cls.module, fn), "one level column per parameter, full Cartesian product, every combination appended once", why, why, key="product")
 
 
 def r3_halton(ctx, repo):
@@ -121,58 +145,96 @@ def r3_halton(ctx, repo):
         raise AnalysisError("halton / _van_der_corput not found in doe.py")
     C = "doe.halton"
     npts, dim = func_params(fn)[:2]
-    # the statement that builds the per-base sequences
-    build = [s for s in stmts_of(fn) if isinstance(s, ast.Assign) and isinstance(s.value, ast.ListComp)
-             and any((access_path(c.func) or "") == "_van_der_corput" for c in calls_in(s.value))]
-    if len(build) != 1:
+    # the returned sample as a term: stack([vdc(N, b) for b in BASES], axis)[1:]
+    T = Terms(fn)
+    rts = [t for _, t in T.returns if t is not None]
+    comp = None
+    for t in rts:
+        for n in ast.walk(t):
+            if isinstance(n, (ast.ListComp, ast.GeneratorExp)) and len(n.generators) == 1 \
+                    and any((access_path(c.func) or "") == "_van_der_corput" for c in calls_in(n.elt)):
+                comp = n
+    if len(rts) != 1 or comp is None:
         ctx.inconclusive("R3", C, where(doe, fn), "per-base sequence construction not recognised", key="bases")
         return
-    b = build[0]
-    bases_var = access_path(b.value.generators[0].iter)
+    rt = rts[0]
+    bases_var = access_path(comp.generators[0].iter)
+    if bases_var is None:
+        d = comp.generators[0].iter
+        sieve = any((access_path(c.func) or "") == "_primes_from_2_to" for c in calls_in(d)) and isinstance(d, ast.Subscript) and isinstance(d.slice, ast.Slice)
+        # a slice of one sieve call, used as it is: nothing can have checked its length
+        ctx.check3(False if sieve else None, "R3", C, where(doe, fn), "",
+                   "the sieve result %s is used without checking that it contains `dimension` primes: for some dimensions fewer bases (hence fewer coordinates) are produced" % text(d),
+                   "the sequences are built over %s, not over a list of bases" % text(d), key="bases")
+        return
+
+    def uses_vdc(node):
+        return any((access_path(c.func) or "") == "_van_der_corput" for c in calls_in(node))
     # path rule: on every path reaching the construction, len(bases) == dimension was established after the last assignment of bases
     bad = None
     npaths = 0
+    anchor = fn
     for p in Enumerator(loop_counts=(1, 2)).function_paths(fn):
-        idx = p.index(lambda e: e.kind == "stmt" and e.node is b)
+        idx = p.index(lambda e: e.kind in ("stmt", "iter", "return") and e.node is not None and uses_vdc(e.node))
         if idx < 0:
             continue
+        anchor = p.events[idx].node
         npaths += 1
         last_def = max([i for i, e in enumerate(p.events[:idx]) if e.kind == "stmt" and isinstance(e.node, ast.Assign) and any(access_path(t) == bases_var for t in e.node.targets)] or [-1])
         if last_def < 0:
             bad = bad or (p, "the bases are not defined before use")
             continue
-        d = p.events[last_def].node.value
+        d = PathEnv(fn, p.events).expand_at(p.events[last_def].node.value, last_def)
         from_sieve = any((access_path(c.func) or "") == "_primes_from_2_to" for c in calls_in(d)) and isinstance(d, ast.Subscript) and isinstance(d.slice, ast.Slice) \
             and d.slice.lower is None and access_path(d.slice.upper) == dim
         if not from_sieve:
             bad = bad or (p, "the bases are %s, not the first `dimension` primes of the sieve" % text(d))
-        checked = any(e.kind == "guard" and e.val and isinstance(e.node, ast.Compare) and isinstance(e.node.ops[0], ast.Eq)
-                      and {text(e.node.left), text(e.node.comparators[0])} == {"len(%s)" % bases_var, dim} for e in p.events[last_def:idx])
+        checked = False
+        for e in p.events[last_def:idx]:
+            if e.kind == "guard" and isinstance(e.node, ast.Compare) and len(e.node.ops) == 1 and isinstance(e.node.ops[0], (ast.Eq, ast.NotEq)) \
+                    and {text(e.node.left), text(e.node.comparators[0])} == {"len(%s)" % bases_var, dim}:
+                if bool(e.val) == isinstance(e.node.ops[0], ast.Eq):
+                    checked = True
         if not checked:
             bad = bad or (p, "the sieve result is used without checking that it contains `dimension` primes: for some dimensions fewer bases (hence fewer coordinates) are produced")
     if bad:
-        ctx.violated("R3", C, where(doe, b), bad[1] + " (path [%s])" % bad[0].describe(4), key="bases")
+        ctx.violated("R3", C, where(doe, anchor), bad[1] + " (path [%s])" % bad[0].describe(4), key="bases")
     elif npaths == 0:
         ctx.inconclusive("R3", C, where(doe, fn), "no path reaches the sequence construction", key="bases")
     else:
-        ctx.holds("R3", C, where(doe, b), "bases = first `dimension` primes of the sieve, length checked before use (%d paths)" % npaths, key="bases")
+        ctx.holds("R3", C, where(doe, anchor), "bases = first `dimension` primes of the sieve, length checked before use (%d paths)" % npaths, key="bases")
     # num_points + 1 terms, first dropped, one column per base
-    call = [c for c in calls_in(b.value) if (access_path(c.func) or "") == "_van_der_corput"][0]
+    call = [c for c in calls_in(comp.elt) if (access_path(c.func) or "") == "_van_der_corput"][0]
     n_arg = call.args[0] if call.args else None
     base_arg = call.args[1] if len(call.args) > 1 else None
-    ok_terms = n_arg is not None and bool(poly.equal(n_arg, poly.parse("%s + 1" % npts))) and access_path(base_arg) == access_path(b.value.generators[0].target)
-    stack = [s for s in stmts_of(fn) if isinstance(s, ast.Assign) and isinstance(s.value, ast.Subscript) and isinstance(s.value.slice, ast.Slice)
-             and any((access_path(c.func) or "").endswith("stack") for c in calls_in(s.value))]
-    ok_drop = False
-    if stack:
-        sl = stack[0].value.slice
-        ok_drop = sl.lower is not None and is_const(sl.lower) and const_value(sl.lower) == 1 and sl.upper is None
-        axis = [k.value for c in calls_in(stack[0].value) for k in c.keywords if k.arg == "axis"]
-        ok_drop = ok_drop and axis and is_const(axis[0]) and const_value(axis[0]) in (-1, 1)
+    for k_ in call.keywords:
+        if k_.arg == "base":
+            base_arg = k_.value
+        if k_.arg == "n_sample":
+            n_arg = k_.value
+    ok_terms = n_arg is not None and bool(poly.equal(n_arg, poly.parse("%s + 1" % npts))) and base_arg is not None \
+        and access_path(base_arg) == access_path(comp.generators[0].target) and not comp.generators[0].ifs and call is comp.elt
+    # rt must be <stack(comp, axis=-1)>[1:]
+    ok_drop = None
+    sl_text = "missing"
+    if isinstance(rt, ast.Subscript) and isinstance(rt.slice, ast.Slice):
+        sl = rt.slice
+        sl_text = text(sl)
+        ok_drop = sl.lower is not None and is_const(sl.lower) and const_value(sl.lower) == 1 and sl.upper is None and sl.step is None
+        st_call = rt.value
+        if isinstance(st_call, ast.Call) and (access_path(st_call.func) or "").endswith("stack") and st_call.args and st_call.args[0] is comp:
+            axis = [k.value for k in st_call.keywords if k.arg == "axis"] + list(st_call.args[1:2])
+            ok_drop = bool(ok_drop and axis and is_const(axis[0]) and const_value(axis[0]) in (-1, 1))
+        elif ok_drop:
+            ok_drop = None      # dropped slice fine, stacking not recognised
+    elif uses_vdc(rt) and not any(isinstance(n, ast.Subscript) and isinstance(n.slice, ast.Slice) for n in ast.walk(rt)):
+        ok_drop = False         # nothing is dropped at all
     if ok_terms and ok_drop:
-        ctx.holds("R3", C, where(doe, b), "each base yields terms 0..num_points of its sequence, term 0 (=0) dropped: point i uses term i", key="burn-in")
+        ctx.holds("R3", C, where(doe, anchor), "each base yields terms 0..num_points of its sequence, term 0 (=0) dropped: point i uses term i", key="burn-in")
+    elif ok_drop is None and ok_terms:
+        ctx.inconclusive("R3", C, where(doe, anchor), "returned sample %s not recognised as stack(...)[1:]" % text(rt)[:120], key="burn-in")
     else:
-        ctx.violated("R3", C, where(doe, b), "the i-th point does not use the i-th radical inverse: sequence length %s / dropped slice %s" % (text(n_arg) if n_arg is not None else "?", text(stack[0].value.slice) if stack else "missing"), key="burn-in")
+        ctx.violated("R3", C, where(doe, anchor), "the i-th point does not use the i-th radical inverse: sequence length %s / dropped slice %s" % (text(n_arg) if n_arg is not None else "?", sl_text), key="burn-in")
     # van der Corput recurrence
     C2 = "doe._van_der_corput"
     ns, base = func_params(vdc)[:2]
@@ -206,10 +268,13 @@ def r3_halton(ctx, repo):
                 detail = "the quotient is not carried into the next digit extraction"
             else:
                 ok = True
-        init = [s for s in stmts_of(vdc) if isinstance(s, ast.Assign) and isinstance(s.targets[0], ast.Tuple) and isinstance(s.value, ast.Tuple)]
-        if ok and init:
-            vals = [const_value(v) if is_const(v) else None for v in init[0].value.elts]
-            if vals != [0.0, 1.0]:
+        if ok:
+            env0 = Terms(vdc).before.get(id(wl[0]), ({}, set()))[0]
+            accv = access_path(body[acc[0]].target)
+            vals = [const_value(env0[n_]) if (n_ in env0 and is_const(env0[n_])) else None for n_ in (accv, dvar)]
+            if None in vals:
+                ok, detail = None, "digit loop not recognised"
+            elif vals != [0.0, 1.0]:
                 ok, detail = False, "accumulator/denominator start at %r, expected (0, 1)" % (vals,)
     state = True if ok else (None if detail == "digit loop not recognised" else False)
     if state is None:
@@ -243,68 +308,119 @@ def r4_lhs(ctx, repo):
         raise AnalysisError("_lhsclassic not found")
     C = "doe._lhsclassic"
     n, samples, rs = func_params(fn)[:3]
-    defs = {}
-    for s in fn.body:
-        if isinstance(s, ast.Assign) and isinstance(s.targets[0], ast.Name):
-            defs[s.targets[0].id] = s.value
-    problems = []
-    cut = [k for k, v in defs.items() if isinstance(v, ast.Call) and (access_path(v.func) or "").endswith("linspace")]
-    if not cut:
-        problems.append("cut points are not built with linspace")
-    else:
-        v = defs[cut[0]]
-        a = v.args
-        if not (len(a) == 3 and is_const(a[0]) and const_value(a[0]) == 0 and is_const(a[1]) and const_value(a[1]) == 1 and poly.equal(a[2], poly.parse("%s + 1" % samples))):
-            problems.append("cut points are %s, expected linspace(0, 1, N+1)" % text(v))
-    cv = cut[0] if cut else None
-    lo = [k for k, v in defs.items() if isinstance(v, ast.Subscript) and access_path(v.value) == cv and isinstance(v.slice, ast.Slice) and v.slice.lower is None
-          and access_path(v.slice.upper) == samples]
-    hi = [k for k, v in defs.items() if isinstance(v, ast.Subscript) and access_path(v.value) == cv and isinstance(v.slice, ast.Slice) and v.slice.lower is not None
-          and is_const(v.slice.lower) and const_value(v.slice.lower) == 1 and (v.slice.upper is None or poly.equal(v.slice.upper, poly.parse("%s + 1" % samples)))]
-    if not lo or not hi:
-        problems.append("stratum ends are not cut[:N] and cut[1:N+1]")
-    u = [k for k, v in defs.items() if isinstance(v, ast.Call) and (access_path(v.func) or "").endswith(".rand") and [text(x) for x in v.args] == [samples, n]]
-    if not u:
-        problems.append("the unit draws are not rand(N, n)")
-    loops = [s for s in fn.body if isinstance(s, ast.For) and range_bounds(s.iter) and text(range_bounds(s.iter)[1]) == n]
+    T = Terms(fn)
+    problems = []      # recognised contradictions
+    unknown = []       # shapes the rule does not recognise
+    import copy
+
+    def is_linspace(c):
+        return isinstance(c, ast.Call) and (access_path(c.func) or "").endswith("linspace")
+
+    def is_rand(c):
+        return isinstance(c, ast.Call) and (access_path(c.func) or "").endswith(".rand")
+
+    class Roles(ast.NodeTransformer):
+        """replace the unit-draw column, the stratum lower ends and the stratum upper ends by U / A / B"""
+
+        def __init__(self, j):
+            self.j = j
+            self.seen = set()
+            self.bad = []
+
+        def visit_Subscript(self, nd):
+            b = nd.value
+            if is_rand(b) and isinstance(nd.slice, ast.Tuple) and len(nd.slice.elts) == 2 and isinstance(nd.slice.elts[0], ast.Slice) \
+                    and text(nd.slice.elts[0]) == ":" and access_path(nd.slice.elts[1]) == self.j:
+                if [text(x) for x in b.args] != [samples, n]:
+                    self.bad.append("the unit draws are %s, not rand(N, n)" % text(b))
+                self.seen.add("U")
+                return ast.Name(id="U", ctx=ast.Load())
+            if is_rand(b):
+                self.bad.append("the stratified column %s uses the draws %s, not its own column [:, %s]" % (self.j, text(nd.slice), self.j))
+                return ast.Name(id="Uother", ctx=ast.Load())
+            if is_linspace(b) and isinstance(nd.slice, ast.Slice) and nd.slice.step is None:
+                a = b.args
+                if not (len(a) == 3 and is_const(a[0]) and const_value(a[0]) == 0 and is_const(a[1]) and const_value(a[1]) == 1
+                        and poly.equal(a[2], poly.parse("%s + 1" % samples))):
+                    self.bad.append("cut points are %s, expected linspace(0, 1, N+1)" % text(b))
+                lo_, up_ = nd.slice.lower, nd.slice.upper
+                if lo_ is None and up_ is not None and access_path(up_) == samples:
+                    self.seen.add("A")
+                    return ast.Name(id="A", ctx=ast.Load())
+                if lo_ is not None and is_const(lo_) and const_value(lo_) == 1 and (up_ is None or poly.equal(up_, poly.parse("%s + 1" % samples))):
+                    self.seen.add("B")
+                    return ast.Name(id="B", ctx=ast.Load())
+                self.bad.append("stratum ends %s are not cut[:N] / cut[1:N+1]" % text(nd.slice))
+                return ast.Name(id="Cother", ctx=ast.Load())
+            return self.generic_visit(nd)
+
+    loops = [s for s in fn.body if isinstance(s, ast.For) and range_bounds(s.iter) and text(range_bounds(T.expand(s.iter, at=s))[1]) == n
+             and isinstance(s.target, ast.Name)]
     strat = perm = None
     for lp in loops:
         j = lp.target.id
-        for s in lp.body:
-            if isinstance(s, ast.Assign) and isinstance(s.targets[0], ast.Subscript) and isinstance(s.value, ast.BinOp):
-                strat = (lp, j, s)
-            if isinstance(s, ast.Assign) and isinstance(s.targets[0], ast.Subscript) and isinstance(s.value, ast.Subscript):
-                perm = (lp, j, s)
-    if strat is None or not (lo and hi and u):
-        problems.append("stratified column construction not found")
+        for s_ in lp.body:
+            if isinstance(s_, ast.Assign) and isinstance(s_.targets[0], ast.Subscript):
+                vx = T.expand(s_.value, at=s_)
+                if isinstance(vx, ast.BinOp):
+                    strat = (lp, j, s_, vx)
+                elif isinstance(vx, ast.Subscript) and not is_rand(vx.value) and not is_linspace(vx.value):
+                    perm = (lp, j, s_, vx)
+    strat_var = None
+    if strat is None:
+        unknown.append("stratified column construction not found")
     else:
-        lp, j, s = strat
-        from .c16 import subst
-        ucol = "%s[:, %s]" % (u[0], j)
-        e = subst(s.value, {ucol: "U", lo[0]: "A", hi[0]: "B"})
-        if not poly.equal(e, poly.parse("A + U * (B - A)")):
-            problems.append("stratified draw %s is not a + u*(b-a) with u the column %s" % (text(s.value), ucol))
-        if text(s.targets[0].slice) != "(slice(None, None, None), %s)" % j and not text(s.targets[0]).endswith("[:, %s]" % j):
-            problems.append("the stratified column is stored at %s, not at column %s" % (text(s.targets[0]), j))
-        strat_var = access_path(s.targets[0].value)
+        lp, j, s_, vx = strat
+        R = Roles(j)
+        e = R.visit(copy.deepcopy(vx))
+        problems.extend(R.bad)
+        if not R.bad:
+            if R.seen != {"U", "A", "B"}:
+                unknown.append("stratified draw %s: unit draws / stratum ends not all recognised (%s)" % (text(s_.value), sorted(R.seen)))
+            else:
+                eq = poly.equal(e, poly.parse("A + U * (B - A)"))
+                if eq is False:
+                    problems.append("stratified draw %s is not a + u*(b-a) with u the column [:, %s] of the unit draws" % (text(s_.value), j))
+                elif eq is None:
+                    unknown.append("stratified draw %s not normalisable" % text(s_.value))
+        if not text(s_.targets[0]).endswith("[:, %s]" % j):
+            problems.append("the stratified column is stored at %s, not at column %s" % (text(s_.targets[0]), j))
+        strat_var = access_path(s_.targets[0].value)
     if perm is None:
-        problems.append("per-column permutation not found")
+        unknown.append("per-column permutation not found")
     elif strat is not None:
-        lp, j, s = perm
+        lp, j, s_, vx = perm
         order = [x for x in lp.body if isinstance(x, ast.Assign) and isinstance(x.value, ast.Call) and (access_path(x.value.func) or "").endswith(".permutation")]
-        if not order or text(order[0].value.args[0]) not in ("range(%s)" % samples, samples):
+        idx_term = vx.slice.elts[0] if isinstance(vx.slice, ast.Tuple) and vx.slice.elts else None
+        if isinstance(idx_term, ast.Call) and not (access_path(idx_term.func) or "").endswith(".permutation"):
+            problems.append("the rows of column %s are picked by %s, which is not a permutation of range(N): strata can be used twice or not at all" % (j, text(idx_term)))
+        elif not order:
+            pcalls = [c for c in calls_in(s_.value) if (access_path(c.func) or "").endswith(".permutation")] or \
+                     [c for c in ast.walk(vx) if isinstance(c, ast.Call) and (access_path(c.func) or "").endswith(".permutation")]
+            if pcalls and text(pcalls[0].args[0]) in ("range(%s)" % samples, samples) and text(vx).startswith("%s[" % strat_var) and text(vx).endswith(", %s]" % j):
+                pass
+            elif any((access_path(c.func) or "").endswith(".permutation") for c in calls_in(fn)):
+                problems.append("rows are not reordered by a permutation of range(N) drawn inside the column loop")
+            else:
+                unknown.append("permutation draw not found")
+        elif text(order[0].value.args[0]) not in ("range(%s)" % samples, samples):
             problems.append("rows are not reordered by a permutation of range(N) drawn inside the column loop")
         else:
             ov = access_path(order[0].targets[0])
-            if text(s.value) != "%s[%s, %s]" % (strat_var, ov, j) or not text(s.targets[0]).endswith("[:, %s]" % j):
-                problems.append("output column %s is %s: it must be its own stratified column indexed by the permutation" % (j, text(s.value)))
-            if lp.body.index(order[0]) > lp.body.index(s):
+            if text(s_.value) != "%s[%s, %s]" % (strat_var, ov, j) or not text(s_.targets[0]).endswith("[:, %s]" % j):
+                problems.append("output column %s is %s: it must be its own stratified column indexed by the permutation" % (j, text(s_.value)))
+            if lp.body.index(order[0]) > lp.body.index(s_):
                 problems.append("the permutation is drawn after it is used")
-    rets = [s for s in fn.body if isinstance(s, ast.Return)]
+    rets = [s_ for s_ in fn.body if isinstance(s_, ast.Return)]
     if perm is not None and rets and access_path(rets[-1].value) != access_path(perm[2].targets[0].value):
-        problems.append("the permuted matrix is not what is returned")
+        if isinstance(rets[-1].value, ast.Name):
+            problems.append("the permuted matrix is not what is returned")
+        else:
+            unknown.append("returned value %s not recognised" % text(rets[-1].value))
     if problems:
         ctx.violated("R4", C, where(doe, fn), "; ".join(problems), key="strata")
+    elif unknown:
+        ctx.inconclusive("R4", C, where(doe, fn), "; ".join(unknown), key="strata")
     else:
         ctx.holds("R4", C, where(doe, fn), "N strata from linspace(0,1,N+1); one draw a + u*(b-a) per stratum and column; each column permuted independently", key="strata")
     # default criterion -> classic
